@@ -9,16 +9,26 @@
 //!   cond  := RPN tokens joined by `_` : `L:<field>:<op>:<int|f<int>|b0|b1>` (op ∈ eq ne gt ge lt le)
 //!            | `R:<field>:<op>:<text>` (right-hand side = Value::String: the evaluator resolves it as a field name first,
 //!            otherwise it is that string literal — `25`, `true` …) | `A` and | `O` or
-//!            | `N` not | `X` (Compound with LogicalOperator::Not, which the parallel evaluator answers false)
-//!   acts  := `-` | `field=int,…`               (ActionType::Set — the typed core's assignments)
-//!   d<k>  := debug_mode of the calls: bit 0 = the configured engine's calls, bit 1 = the sequential engine's calls
-//!            (debug output goes to fd 1, which `exec` points at /dev/null)
+//!            | `E:<field>:<op>:<name|name+k|name-k|name*k>` (right-hand side = Value::Expression — what the GRL parser
+//!            makes of `a > b`, `a > U.x`, `a > b + 1`: evaluated by expression::evaluate_expression, which reads the
+//!            FLAT key first) | `N` not | `X` (Compound with LogicalOperator::Not, which the parallel evaluator answers false)
+//!            op also ∈ ct (contains) nc (not_contains) sw (startsWith) ew (endsWith) mt (matches) in
+//!   acts  := `-` | item,…   item := `field=int` (ActionType::Set) | mcall | log | retract | append | custom (a Custom action
+//!            whose function nobody registered) | agenda | sched | wfdone | wfdata   (every ActionType there is)
+//!   d<k>  := flags. bit 0 / bit 1 = debug_mode of the configured engine's / the sequential engine's calls (debug output
+//!            goes to fd 1, which `exec` points at /dev/null); bit 2 = the engines are built from
+//!            `ParallelConfig::default()` (only max_threads — and `enabled` of the sequential reference — overridden; the case
+//!            must say enabled=1, min_rules=2, which is what the default is documented and tested to be); bits 3-4 = how the
+//!            facts are built: 0 add_value, 1 set + create_object + set_nested, 2 from_context, 3 add_value into a scratch
+//!            store, then merge into a store that had a decoy key added and removed, snapshot, clear, restore
+//!   a dotted name may be deeper than one level (`U.p.q`: object `U` holds object `p` holds `q`)
 //!   every further `<facts> <rules>` pair is one more *stage*: a different KnowledgeBase object with the SAME name and
 //!   other facts, run through the SAME two engine objects (one `ParallelRuleEngine` per configuration lives for the
 //!   whole case: all stages, all repetitions)
 //! obs  := stage ` ;; ` stage …     stage := `S:<run> P:<run> P:<run> …`  S = the engine with `enabled=false` (its
 //!          sequential path), P = the configured engine, first unperturbed, then `reps` runs under seeded schedule points
 //!   run  := `ok/<total_rules_evaluated>/<total_rules_fired>/<name=0|1,…>/<facts after, sorted>`
+//!          | `badstats/…` (the two counters printed by `ParallelExecutionResult::get_stats` are not the fields)
 //!          | `err` | `panic` | `timeout` (watchdog: the call did not return within 8 s) | `timeout-skipped`
 use rre_harness::*;
 use rust_rule_engine::engine::facts::Facts;
@@ -107,10 +117,40 @@ fn to_value(v: &Val) -> Value {
 enum Tok {
     Leaf(String, String, Val),
     Ref(String, String, String),
+    /// field, op, expression text (`Value::Expression`)
+    Expr(String, String, String),
     And,
     Or,
     Not,
     XNot,
+}
+
+#[derive(Clone, Debug, PartialEq)]
+enum Act {
+    Set(String, i64),
+    /// one of ACT_KINDS
+    Kind(String),
+}
+
+const ACT_KINDS: [&str; 9] = ["mcall", "log", "retract", "append", "custom", "agenda", "sched", "wfdone", "wfdata"];
+
+/// a field name usable as an expression atom: letters, digits, dots; starts with a letter; not inf / nan / infinity
+fn plain_name(s: &str) -> bool {
+    s.starts_with(|c: char| c.is_ascii_alphabetic())
+        && s.chars().all(|c| c.is_ascii_alphanumeric() || c == '.')
+        && !["inf", "infinity", "nan"].contains(&s.to_ascii_lowercase().as_str())
+}
+
+/// `name` | `name+k` | `name-k` | `name*k`; Some(is_arithmetic)
+fn valid_expr(t: &str) -> Option<bool> {
+    match t.find(|c| c == '+' || c == '-' || c == '*') {
+        None => plain_name(t).then_some(false),
+        Some(i) => {
+            let (n, k) = (&t[..i], &t[i + 1..]);
+            let ok = plain_name(n) && !k.is_empty() && k.len() <= 7 && k.bytes().all(|b| b.is_ascii_digit());
+            (ok && k.parse::<u64>().ok()? <= 1 << 20).then_some(true)
+        }
+    }
 }
 
 #[derive(Clone, Debug)]
@@ -119,7 +159,7 @@ struct RuleSpec {
     sal: i32,
     en: bool,
     cond: Vec<Tok>,
-    acts: Vec<(String, i64)>,
+    acts: Vec<Act>,
 }
 
 /// one knowledge base + the facts it is run on
@@ -138,7 +178,8 @@ struct Case {
     pseed: u64,
     facts: Vec<(String, Val)>,
     rules: Vec<RuleSpec>,
-    /// debug_mode: bit 0 = configured engine, bit 1 = sequential engine
+    /// flags: bit 0 = debug_mode of the configured engine, bit 1 = of the sequential engine, bit 2 = default config,
+    /// bits 3-4 = facts builder
     dbg: u8,
     /// further stages run through the same engine objects
     more: Vec<Stage>,
@@ -168,23 +209,29 @@ fn show_facts_kv(kv: &[(String, Val)]) -> String {
     }
 }
 
-fn parse_kv(s: &str) -> Option<Vec<(String, i64)>> {
+fn parse_kv(s: &str) -> Option<Vec<Act>> {
     if s == "-" {
         return Some(vec![]);
     }
     s.split(',')
-        .map(|kv| {
-            let (k, v) = kv.split_once('=')?;
-            Some((k.to_string(), v.parse().ok()?))
+        .map(|kv| match kv.split_once('=') {
+            Some((k, v)) => Some(Act::Set(k.to_string(), v.parse().ok()?)),
+            None => ACT_KINDS.contains(&kv).then(|| Act::Kind(kv.to_string())),
         })
         .collect()
 }
 
-fn show_kv(kv: &[(String, i64)]) -> String {
+fn show_kv(kv: &[Act]) -> String {
     if kv.is_empty() {
         "-".into()
     } else {
-        kv.iter().map(|(k, v)| format!("{}={}", k, v)).collect::<Vec<_>>().join(",")
+        kv.iter()
+            .map(|a| match a {
+                Act::Set(k, v) => format!("{}={}", k, v),
+                Act::Kind(k) => k.clone(),
+            })
+            .collect::<Vec<_>>()
+            .join(",")
     }
 }
 
@@ -201,6 +248,8 @@ fn parse_cond(s: &str) -> Option<Vec<Tok>> {
                     Some(Tok::Leaf(p[1].to_string(), p[2].to_string(), parse_scalar(p[3])?))
                 } else if p.len() == 4 && p[0] == "R" && valid_text(p[3]) {
                     Some(Tok::Ref(p[1].to_string(), p[2].to_string(), p[3].to_string()))
+                } else if p.len() == 4 && p[0] == "E" && valid_expr(p[3]).is_some() {
+                    Some(Tok::Expr(p[1].to_string(), p[2].to_string(), p[3].to_string()))
                 } else {
                     None
                 }
@@ -218,6 +267,7 @@ fn show_cond(c: &[Tok]) -> String {
             Tok::XNot => "X".to_string(),
             Tok::Leaf(f, o, v) => format!("L:{}:{}:{}", f, o, show_val(v)),
             Tok::Ref(f, o, g) => format!("R:{}:{}:{}", f, o, g),
+            Tok::Expr(f, o, t) => format!("E:{}:{}:{}", f, o, t),
         })
         .collect::<Vec<_>>()
         .join("_")
@@ -266,14 +316,14 @@ fn parse_case(line: &str) -> Option<Case> {
     let mut more = Vec::new();
     if t.len() >= 8 {
         dbg = t[7].strip_prefix('d')?.parse().ok()?;
-        if dbg > 3 {
+        if dbg > 31 {
             return None;
         }
         for pair in t[8..].chunks(2) {
             more.push(Stage { facts: parse_facts(pair[0])?, rules: parse_rules(pair[1])? });
         }
     }
-    Some(Case {
+    let c = Case {
         en: t[0] == "1",
         mt: t[1].parse().ok()?,
         mr: t[2].parse().ok()?,
@@ -283,7 +333,25 @@ fn parse_case(line: &str) -> Option<Case> {
         rules: parse_rules(t[6])?,
         dbg,
         more,
-    })
+    };
+    // the default configuration is enabled with min_rules_per_thread = 2
+    if c.dbg & 4 != 0 && !(c.en && c.mr == 2) {
+        return None;
+    }
+    // arithmetic right-hand sides are computed in f64 by the engine: exact as long as the numbers stay small
+    let sts = stages(&c);
+    let arith = sts.iter().any(|s| {
+        s.rules.iter().any(|r| r.cond.iter().any(|t| matches!(t, Tok::Expr(_, _, e) if valid_expr(e) == Some(true))))
+    });
+    let big = |v: &Val| match v {
+        Val::I(i) | Val::F(i) => i.unsigned_abs() > 1 << 31,
+        Val::S(t) => t.parse::<i64>().map(|i| i.unsigned_abs() > 1 << 31).unwrap_or(false),
+        Val::B(_) => false,
+    };
+    if arith && sts.iter().any(|s| s.facts.iter().any(|(_, v)| big(v))) {
+        return None;
+    }
+    Some(c)
 }
 
 fn show_case(c: &Case) -> String {
@@ -320,6 +388,12 @@ fn op_of(s: &str) -> Option<Operator> {
         "ge" => Operator::GreaterThanOrEqual,
         "lt" => Operator::LessThan,
         "le" => Operator::LessThanOrEqual,
+        "ct" => Operator::Contains,
+        "nc" => Operator::NotContains,
+        "sw" => Operator::StartsWith,
+        "ew" => Operator::EndsWith,
+        "mt" => Operator::Matches,
+        "in" => Operator::In,
         _ => return None,
     })
 }
@@ -337,6 +411,11 @@ fn build_cond(toks: &[Tok]) -> Option<ConditionGroup> {
                 f.clone(),
                 op_of(o)?,
                 Value::String(g.clone()),
+            ))),
+            Tok::Expr(f, o, e) => st.push(ConditionGroup::single(Condition::new(
+                f.clone(),
+                op_of(o)?,
+                Value::Expression(e.clone()),
             ))),
             Tok::Not => {
                 let a = st.pop()?;
@@ -364,28 +443,123 @@ fn build_cond(toks: &[Tok]) -> Option<ConditionGroup> {
     }
 }
 
-fn build_facts(kv: &[(String, Val)]) -> Facts {
-    let facts = Facts::new();
-    let mut objs: BTreeMap<String, HashMap<String, Value>> = BTreeMap::new();
+/// the facts of a case as a tree: a dotted name is a path through nested objects
+#[derive(Clone, Debug)]
+enum Node {
+    Leaf(Value),
+    Obj(BTreeMap<String, Node>),
+}
+
+fn node_insert(m: &mut BTreeMap<String, Node>, path: &[&str], v: Value) -> Option<()> {
+    if path.len() == 1 {
+        // the same name twice: the later value wins (as with repeated add_value), unless one of them is an object
+        if matches!(m.get(path[0]), Some(Node::Obj(_))) {
+            return None;
+        }
+        m.insert(path[0].to_string(), Node::Leaf(v));
+        return Some(());
+    }
+    match m.entry(path[0].to_string()).or_insert_with(|| Node::Obj(BTreeMap::new())) {
+        Node::Obj(sub) => node_insert(sub, &path[1..], v),
+        Node::Leaf(_) => None, // a scalar where an object is needed
+    }
+}
+
+fn node_value(n: &Node) -> Value {
+    match n {
+        Node::Leaf(v) => v.clone(),
+        Node::Obj(m) => Value::Object(m.iter().map(|(k, x)| (k.clone(), node_value(x))).collect()),
+    }
+}
+
+/// mode 1: the object is created empty and filled field by field through `set_nested`
+fn fill_nested(facts: &Facts, prefix: &str, m: &BTreeMap<String, Node>) -> Option<()> {
+    for (k, n) in m {
+        let path = format!("{}.{}", prefix, k);
+        match n {
+            Node::Leaf(v) => facts.set_nested(&path, v.clone()).ok()?,
+            Node::Obj(sub) => {
+                facts.set_nested(&path, Facts::create_object(vec![])).ok()?;
+                fill_nested(facts, &path, sub)?;
+            }
+        }
+    }
+    Some(())
+}
+
+/// `mode`: 0 add_value | 1 set / create_object / set_nested | 2 from_context | 3 scratch store merged into a store that
+/// had a decoy key, then snapshot / clear / restore.  All four must hand the engine the same facts.
+fn build_facts(kv: &[(String, Val)], mode: u8) -> Option<Facts> {
+    // flat keys (`~U.x`, and every undotted name) and object trees
+    let mut top: BTreeMap<String, Node> = BTreeMap::new();
+    let mut flat: Vec<(String, Value)> = Vec::new();
     for (k, v) in kv {
-        if let Some(flat) = k.strip_prefix('~') {
+        if let Some(f) = k.strip_prefix('~') {
             // a top-level key that contains a dot
-            facts.add_value(flat, to_value(v)).unwrap();
+            flat.retain(|(x, _)| x != f);
+            flat.push((f.to_string(), to_value(v)));
             continue;
         }
-        match k.split_once('.') {
-            Some((root, field)) => {
-                objs.entry(root.to_string()).or_default().insert(field.to_string(), to_value(v));
+        let parts: Vec<&str> = k.split('.').collect();
+        if parts.iter().any(|p| p.is_empty()) {
+            return None;
+        }
+        node_insert(&mut top, &parts, to_value(v))?;
+    }
+    let by_add = |facts: &Facts| {
+        for (k, v) in &flat {
+            facts.add_value(k, v.clone()).unwrap();
+        }
+        for (k, n) in &top {
+            facts.add_value(k, node_value(n)).unwrap();
+        }
+    };
+    match mode {
+        1 => {
+            let facts = Facts::new();
+            for (k, v) in &flat {
+                facts.set(k, v.clone());
             }
-            None => {
-                facts.add_value(k, to_value(v)).unwrap();
+            for (k, n) in &top {
+                match n {
+                    Node::Leaf(v) => facts.set_nested(k, v.clone()).ok()?,
+                    Node::Obj(sub) => {
+                        facts.set(k, Facts::create_object(vec![]));
+                        fill_nested(&facts, k, sub)?;
+                    }
+                }
             }
+            Some(facts)
+        }
+        2 => {
+            let mut ctx: HashMap<String, Value> = flat.iter().cloned().collect();
+            for (k, n) in &top {
+                ctx.insert(k.clone(), node_value(n));
+            }
+            Some(Facts::from_context(ctx))
+        }
+        3 => {
+            let scratch = Facts::new();
+            by_add(&scratch);
+            let facts = Facts::new();
+            facts.add_value("decoy9", Value::Integer(9)).unwrap();
+            facts.merge(&scratch);
+            facts.remove("decoy9")?;
+            let snap = facts.snapshot();
+            let n = facts.count();
+            facts.clear();
+            if facts.count() != 0 || facts.contains("decoy9") {
+                return None;
+            }
+            facts.restore(snap);
+            (facts.count() == n).then_some(facts)
+        }
+        _ => {
+            let facts = Facts::new();
+            by_add(&facts);
+            Some(facts)
         }
     }
-    for (root, m) in objs {
-        facts.add_value(&root, Value::Object(m)).unwrap();
-    }
-    facts
 }
 
 fn show_value(prefix: &str, v: &Value, out: &mut Vec<String>) {
@@ -423,7 +597,7 @@ static TIMEOUTS: std::sync::atomic::AtomicUsize = std::sync::atomic::AtomicUsize
 
 /// one call of the real `execute_parallel` of the given (long-lived) engine on a fresh knowledge base object —
 /// always named "c19" — and fresh facts, guarded by a watchdog ("it always returns")
-fn run_once(engine: &Arc<ParallelRuleEngine>, st: &Stage, enabled: bool, debug: bool, sched_seed: u64) -> String {
+fn run_once(engine: &Arc<ParallelRuleEngine>, st: &Stage, enabled: bool, debug: bool, sched_seed: u64, fmode: u8) -> String {
     // once three calls have hung in this process, further calls that may spawn workers are not attempted
     // (each would cost the full watchdog time); the hang has been reported by then
     if enabled && TIMEOUTS.load(std::sync::atomic::Ordering::SeqCst) >= 3 {
@@ -442,11 +616,7 @@ fn run_once(engine: &Arc<ParallelRuleEngine>, st: &Stage, enabled: bool, debug: 
                 let _ = tx.send("bad-cond".to_string());
                 return;
             };
-            let acts = r
-                .acts
-                .iter()
-                .map(|(f, v)| ActionType::Set { field: f.clone(), value: Value::Integer(*v) })
-                .collect();
+            let acts = r.acts.iter().map(build_action).collect();
             let mut rule = Rule::new(r.name.clone(), cond, acts).with_salience(r.sal);
             rule.enabled = r.en;
             if kb.add_rule(rule).is_err() {
@@ -454,7 +624,10 @@ fn run_once(engine: &Arc<ParallelRuleEngine>, st: &Stage, enabled: bool, debug: 
                 return;
             }
         }
-        let facts = build_facts(&st.facts);
+        let Some(facts) = build_facts(&st.facts, fmode) else {
+            let _ = tx.send("bad-facts".to_string());
+            return;
+        };
         let r = std::panic::catch_unwind(std::panic::AssertUnwindSafe(|| engine.execute_parallel(&kb, &facts, debug)));
         let s = match r {
             Err(_) => "panic".to_string(),
@@ -465,8 +638,22 @@ fn run_once(engine: &Arc<ParallelRuleEngine>, st: &Stage, enabled: bool, debug: 
                     .iter()
                     .map(|x| format!("{}={}", x.rule.name, x.fired as u8))
                     .collect();
+                // the two counters as `get_stats` prints them
+                let stats = res.get_stats();
+                let num_after = |key: &str| -> Option<usize> {
+                    let rest = &stats[stats.find(key)? + key.len()..];
+                    rest.trim_start().split(|c: char| !c.is_ascii_digit()).next()?.parse().ok()
+                };
+                let head = if num_after("Rules evaluated:") == Some(res.total_rules_evaluated)
+                    && num_after("Rules fired:") == Some(res.total_rules_fired)
+                {
+                    "ok"
+                } else {
+                    "badstats"
+                };
                 format!(
-                    "ok/{}/{}/{}/{}",
+                    "{}/{}/{}/{}/{}",
+                    head,
                     res.total_rules_evaluated,
                     res.total_rules_fired,
                     if ctxs.is_empty() { "-".to_string() } else { ctxs.join(",") },
@@ -486,30 +673,57 @@ fn run_once(engine: &Arc<ParallelRuleEngine>, st: &Stage, enabled: bool, debug: 
     }
 }
 
+fn build_action(a: &Act) -> ActionType {
+    let s = |x: &str| x.to_string();
+    match a {
+        Act::Set(f, v) => ActionType::Set { field: f.clone(), value: Value::Integer(*v) },
+        Act::Kind(k) => match k.as_str() {
+            "mcall" => ActionType::MethodCall { object: s("U"), method: s("setX"), args: vec![Value::Integer(7)] },
+            "log" => ActionType::Log { message: s("c19") },
+            "retract" => ActionType::Retract { object: s("U") },
+            "append" => ActionType::Append { field: s("U.x"), value: Value::Integer(7) },
+            "custom" => ActionType::Custom { action_type: s("notRegistered"), params: HashMap::new() },
+            "agenda" => ActionType::ActivateAgendaGroup { group: s("g") },
+            "sched" => ActionType::ScheduleRule { rule_name: s("r0"), delay_ms: 1 },
+            "wfdone" => ActionType::CompleteWorkflow { workflow_name: s("w") },
+            _ => ActionType::SetWorkflowData { key: s("a"), value: Value::Integer(7) },
+        },
+    }
+}
+
 fn exec(case: &str) -> String {
     let Some(c) = parse_case(case) else { return "bad-case".into() };
+    let dflt = c.dbg & 4 != 0;
+    if dflt {
+        // the default configuration must be one the property quantifies over (and the one the case text says)
+        let d = ParallelConfig::default();
+        if !(d.enabled && d.min_rules_per_thread == 2 && d.max_threads >= 1) {
+            return format!("default-config/{}/{}/{}", d.enabled as u8, d.max_threads, d.min_rules_per_thread);
+        }
+    }
     let mk = |enabled: bool| {
-        Arc::new(ParallelRuleEngine::new(ParallelConfig {
-            enabled,
-            max_threads: c.mt,
-            min_rules_per_thread: c.mr,
-            dependency_analysis: true,
+        Arc::new(ParallelRuleEngine::new(if dflt {
+            let d = ParallelConfig::default();
+            ParallelConfig { enabled: enabled && d.enabled, max_threads: c.mt, ..d }
+        } else {
+            ParallelConfig { enabled, max_threads: c.mt, min_rules_per_thread: c.mr, dependency_analysis: true }
         }))
     };
+    let fmode = (c.dbg >> 3) & 3;
     // two engine objects for the whole case: every stage and every repetition goes through them
     let eng_s = mk(false);
     let eng_p = mk(c.en);
     let (dbg_p, dbg_s) = (c.dbg & 1 != 0, c.dbg & 2 != 0);
     let mut out_stages = Vec::new();
     for st in stages(&c) {
-        let mut out = vec![format!("S:{}", run_once(&eng_s, &st, false, dbg_s, 0))];
-        out.push(format!("P:{}", run_once(&eng_p, &st, c.en, dbg_p, 0)));
+        let mut out = vec![format!("S:{}", run_once(&eng_s, &st, false, dbg_s, 0, fmode))];
+        out.push(format!("P:{}", run_once(&eng_p, &st, c.en, dbg_p, 0, fmode)));
         for j in 0..c.reps {
             let seed = c.pseed.wrapping_mul(1_000_003).wrapping_add(j as u64 + 1) | 1;
             // contention cases (many repetitions): every other run is unperturbed, so that workers that start
             // together also finish together (races on shared counters need simultaneous, not staggered, workers)
             let seed = if c.reps >= 50 && j % 2 == 1 { 0 } else { seed };
-            out.push(format!("P:{}", run_once(&eng_p, &st, c.en, dbg_p, seed)));
+            out.push(format!("P:{}", run_once(&eng_p, &st, c.en, dbg_p, seed, fmode)));
         }
         out_stages.push(out.join(" "));
     }
@@ -667,7 +881,7 @@ fn gen_rules(rng: &mut Rng, n: usize, prefix: &str, sal_dom: u64, p_enabled: u64
         let mut acts = Vec::new();
         for _ in 0..rng.below(3) {
             // assignments that *would* change other rules' verdicts if the engine performed them
-            acts.push((rng.pick(&FIELDS[..6]).to_string(), rng.below(5) as i64 - 2 + 10));
+            acts.push(Act::Set(rng.pick(&FIELDS[..6]).to_string(), rng.below(5) as i64 - 2 + 10));
         }
         rules.push(RuleSpec {
             name: format!("{}{}", prefix, i),
@@ -850,6 +1064,134 @@ fn gen_session(rng: &mut Rng, reps: usize) -> Case {
     c
 }
 
+/// string values for the string operators: substrings / prefixes / suffixes of one another, and two that look numeric
+const STRS: [&str; 8] = ["abc", "ab", "bc", "b", "xabcx", "abcabc", "12", "2"];
+/// the fields of the extended families: two flat strings, a string field of the object, a field two objects deep, a
+/// path THROUGH the scalar `U.x` (never an object field; sometimes a flat key), and the plain ones
+const XFIELDS: [&str; 10] = ["s", "t", "U.s", "U.p.q", "U.x.y", "a", "b", "U.x", "U.y", "zz"];
+const SOPS: [&str; 6] = ["ct", "nc", "sw", "ew", "mt", "in"];
+
+/// a leaf of the extended grammar: a `Value::Expression` right-hand side (bare field name or one arithmetic step on
+/// it — over numbers, numeric strings, booleans, words, missing fields), or a string operator
+fn gen_xleaf(rng: &mut Rng) -> Tok {
+    let f = rng.pick(&XFIELDS).to_string();
+    match rng.below(10) {
+        0..=2 => Tok::Expr(f, rng.pick(&OPS).to_string(), rng.pick(&XFIELDS).to_string()),
+        3..=5 => {
+            let g = *rng.pick(&XFIELDS);
+            let k = *rng.pick(&[0u64, 1, 1, 2, 3, 10]);
+            Tok::Expr(f, rng.pick(&OPS).to_string(), format!("{}{}{}", g, rng.pick(&["+", "-", "*"]), k))
+        }
+        6 | 7 => {
+            // string operator against a string constant; mostly on the string-valued fields
+            let f = if rng.chance(3, 4) { rng.pick(&XFIELDS[..3]).to_string() } else { f };
+            Tok::Ref(f, rng.pick(&SOPS).to_string(), rng.pick(&STRS).to_string())
+        }
+        8 => {
+            // string operator against another field (API spelling and GRL spelling of the reference)
+            let g = rng.pick(&XFIELDS[..4]).to_string();
+            if rng.chance(1, 2) {
+                Tok::Ref(f, rng.pick(&SOPS).to_string(), g)
+            } else {
+                Tok::Expr(f, rng.pick(&SOPS).to_string(), g)
+            }
+        }
+        // string operator with a non-string constant, ordering / equality on a string field
+        _ => {
+            if rng.chance(1, 2) {
+                Tok::Leaf(f, rng.pick(&SOPS).to_string(), Val::I(rng.below(3) as i64))
+            } else {
+                Tok::Ref(rng.pick(&XFIELDS[..3]).to_string(), rng.pick(&OPS).to_string(), rng.pick(&STRS).to_string())
+            }
+        }
+    }
+}
+
+/// turn a stage into one of the extended grammar: string / deep / shadowing facts, a third of the leaves replaced,
+/// half of the rules given actions of the other kinds
+fn extend_stage(rng: &mut Rng, facts: &mut Vec<(String, Val)>, rules: &mut [RuleSpec]) {
+    for f in ["s", "t", "U.s"] {
+        if rng.chance(4, 5) {
+            facts.push((f.to_string(), Val::S(rng.pick(&STRS).to_string())));
+        }
+    }
+    if rng.chance(3, 4) {
+        facts.push(("U.p.q".to_string(), Val::I(rng.below(5) as i64 - 2)));
+    }
+    // flat keys spelled like the deep path, like a path through a scalar, like the string field
+    for f in ["~U.p.q", "~U.x.y", "~U.s"] {
+        if rng.chance(1, 4) && !facts.iter().any(|(k, _)| k == f) {
+            let v = if f == "~U.s" { Val::S(rng.pick(&STRS).to_string()) } else { Val::I(rng.below(5) as i64 - 2) };
+            facts.push((f.to_string(), v));
+        }
+    }
+    for r in rules.iter_mut() {
+        for t in r.cond.iter_mut() {
+            if matches!(t, Tok::Leaf(..) | Tok::Ref(..)) && rng.chance(2, 5) {
+                *t = gen_xleaf(rng);
+            }
+        }
+        if rng.chance(1, 2) {
+            for _ in 0..rng.range(1, 2) {
+                let at = rng.below(r.acts.len() as u64 + 1) as usize;
+                r.acts.insert(at, Act::Kind(rng.pick(&ACT_KINDS).to_string()));
+            }
+        }
+    }
+}
+
+/// the extended families: expression right-hand sides, string operators, every action kind, deep paths; the engines
+/// built from the default configuration in a quarter of them; the facts built through the other Facts entry points
+fn gen_ext(rng: &mut Rng, reps: usize) -> Case {
+    let mut c = if rng.chance(1, 6) { gen_session(rng, 1) } else { gen_case(rng, reps) };
+    extend_stage(rng, &mut c.facts, &mut c.rules);
+    for st in c.more.iter_mut() {
+        extend_stage(rng, &mut st.facts, &mut st.rules);
+    }
+    c.dbg &= 3;
+    if rng.chance(1, 4) {
+        c.en = true;
+        c.mr = 2;
+        c.dbg |= 4;
+    }
+    if rng.chance(1, 2) {
+        c.dbg |= (rng.range(1, 3) as u8) << 3;
+    }
+    c
+}
+
+/// every action kind on one parallelised level: rule i carries kind i (and an assignment in front or behind it),
+/// firing and non-firing rules alternate in a pattern that is not the chunking period
+fn gen_action_kinds(rng: &mut Rng, k: usize) -> Case {
+    let mut c = gen_case(rng, 2);
+    c.en = true;
+    c.mt = [2usize, 3, 4, 16][k % 4];
+    c.mr = 1 + k % 2;
+    c.dbg = [0u8, 1, 3, 4 * (c.mr == 2) as u8][k % 4];
+    c.facts = vec![("a".to_string(), Val::I(1)), ("U.x".to_string(), Val::I(1))];
+    let n = ACT_KINDS.len() + 1 + k % 3;
+    c.rules = (0..n)
+        .map(|i| {
+            let mut acts = Vec::new();
+            if i % ACT_KINDS.len() != i || rng.chance(1, 2) {
+                acts.push(Act::Set("a".to_string(), 0));
+            }
+            acts.push(Act::Kind(ACT_KINDS[(i + k) % ACT_KINDS.len()].to_string()));
+            if rng.chance(1, 3) {
+                acts.push(Act::Kind(rng.pick(&ACT_KINDS).to_string()));
+            }
+            RuleSpec {
+                name: format!("r{}", i),
+                sal: if k % 3 == 2 && i % 4 == 0 { 5 } else { 0 },
+                en: true,
+                cond: vec![Tok::Leaf(if i % 2 == 0 { "a" } else { "U.x" }.to_string(), if i % 3 == 2 { "lt" } else { "ge" }.to_string(), Val::I(1))],
+                acts,
+            }
+        })
+        .collect();
+    c
+}
+
 fn gen(rng: &mut Rng, n: usize, tier: &str) -> Vec<String> {
     let reps = if tier == "thorough" { 4 } else { 3 };
     let mut out = Vec::new();
@@ -910,6 +1252,15 @@ fn gen(rng: &mut Rng, n: usize, tier: &str) -> Vec<String> {
             .collect();
         out.push(show_case(&c));
     }
+    // every action kind on a parallelised level
+    for k in 0..(if tier == "thorough" { 48 } else { 12 }) {
+        out.push(show_case(&gen_action_kinds(rng, k)));
+    }
+    // the extended grammar (expression right-hand sides, string operators, action kinds, deep paths, default
+    // configuration, the other ways to build the facts): n/6 cases on top of the n random ones
+    for _ in 0..n / 6 {
+        out.push(show_case(&gen_ext(rng, reps.min(2))));
+    }
     // random part: 1/6 sessions (one engine, several knowledge bases; one perturbed repetition per stage, so a
     // session costs about as many calls as a plain case), 1/8 look-alike constants, the rest plain cases
     for _ in 0..n {
@@ -957,7 +1308,7 @@ fn shrink(case: &str) -> Vec<String> {
         }
     }
     if c.dbg != 0 {
-        for dbg in [0u8, 1] {
+        for dbg in [0u8, 1, c.dbg & 7, c.dbg & 27, c.dbg & 28] {
             if dbg != c.dbg {
                 let mut d = c.clone();
                 d.dbg = dbg;
@@ -998,7 +1349,7 @@ fn shrink(case: &str) -> Vec<String> {
             if st.rules[i].cond.len() > 1 {
                 // replace the condition by one of its leaves
                 for t in &st.rules[i].cond {
-                    if matches!(t, Tok::Leaf(..) | Tok::Ref(..)) {
+                    if matches!(t, Tok::Leaf(..) | Tok::Ref(..) | Tok::Expr(..)) {
                         let mut v = sts.clone();
                         v[k].rules[i].cond = vec![t.clone()];
                         out.push(show_case(&from_stages(&c, v)));
